@@ -174,10 +174,15 @@ impl Drop for ZTok {
         ZDROPS.fetch_add(1, std::sync::atomic::Ordering::SeqCst);
     }
 }
+impl Clone for ZTok {
+    fn clone(&self) -> ZTok {
+        ZTok
+    }
+}
 
 /// `[48 + j, 0, 0]`: zero-sized headers / payloads with drop glue through the constructors.
 /// observation `[status, SEP, SEP, ZST drops during construction, ZST drops after everything is released,
-///               element destructors, bad accesses or releases]`
+///               element destructors, bad accesses or releases, blocks allocated and not released]`
 pub fn zst(kind: u64) -> Vec<u64> {
     use std::sync::atomic::Ordering::SeqCst;
     assert_eq!(std::mem::size_of::<ZTok>(), 0);
@@ -219,24 +224,63 @@ pub fn zst(kind: u64) -> Vec<u64> {
             during = ZDROPS.load(SeqCst);
             drop(a);
         }
-        _ => {
+        5 => {
             let a = Arc::new(ZTok);
             during = ZDROPS.load(SeqCst);
             let b = a.clone();
             drop(a);
             drop(b);
         }
+        // a zero-sized value is unwrapped by its sole owner: it comes out without having been destroyed, and the
+        // block (which still holds the count) goes back
+        6 => {
+            let v = Arc::try_unwrap(Arc::new(ZTok));
+            during = ZDROPS.load(SeqCst);
+            drop(v);
+        }
+        7 => {
+            let v = Arc::unwrap_or_clone(Arc::new(ZTok));
+            during = ZDROPS.load(SeqCst);
+            drop(v);
+        }
+        8 => {
+            let v = Arc::try_unique(Arc::new(ZTok)).ok().map(UniqueArc::into_inner);
+            during = ZDROPS.load(SeqCst);
+            drop(v);
+        }
+        9 => {
+            let v = UniqueArc::into_inner(UniqueArc::new(ZTok));
+            during = ZDROPS.load(SeqCst);
+            drop(v);
+        }
+        10 => {
+            use std::convert::TryFrom;
+            let v = UniqueArc::try_from(Arc::new(ZTok)).ok().map(UniqueArc::into_inner);
+            during = ZDROPS.load(SeqCst);
+            drop(v);
+        }
+        _ => {
+            // shared: the clone comes back, the original goes with the other owner
+            let a = Arc::new(ZTok);
+            let b = a.clone();
+            let v = Arc::unwrap_or_clone(a);
+            during = ZDROPS.load(SeqCst);
+            drop(v);
+            drop(b);
+        }
     }));
     talloc::record(false);
     let evs = talloc::drain();
+    let allocs = evs.iter().filter(|e| matches!(e, Ev::Alloc { .. })).count() as u64;
+    let deallocs = evs.iter().filter(|e| matches!(e, Ev::Dealloc { .. } | Ev::BadDealloc { .. })).count() as u64;
     let bad = evs.iter().filter(|e| matches!(e, Ev::BadDtor { .. } | Ev::BadRead { .. } | Ev::BadDealloc { .. } | Ev::UnknownDealloc { .. } | Ev::Overrun { .. })).count() as u64;
     let dt = evs.iter().filter(|e| matches!(e, Ev::Dtor { .. })).count() as u64;
-    vec![r.is_err() as u64, SEP, SEP, during, ZDROPS.load(SeqCst), dt, bad]
+    vec![r.is_err() as u64, SEP, SEP, during, ZDROPS.load(SeqCst), dt, bad, allocs.wrapping_sub(deallocs)]
 }
 
 pub fn run1(kind: u64, n: usize, k: u64) -> Vec<u64> {
     if kind >= 28 {
-        return if kind < 34 && n == 0 && k == 0 { zst(kind - 28) } else { vec![98] };
+        return if kind < 40 && n == 0 && k == 0 { zst(kind - 28) } else { vec![98] };
     }
     if kind >= 24 {
         return if kind < 28 && n == 0 && k == 0 { plain(kind - 24) } else { vec![98] };
